@@ -226,7 +226,10 @@ func generate(thorough bool, sel func(int) bool, count bool) *generator {
 	ranges := []int{5, 10, 15, 60}
 
 	// ---------------- L1 ----------------
-	l1ranges := append([]int{}, ranges...)
+	l1ranges := []int{5, 15, 60} // 10 s (a second range below the shortcut) in the thorough tier
+	if thorough {
+		l1ranges = ranges
+	}
 	timeFam := buildFamily("time", timePool, maxEntries, append(append([]int{}, ranges...), 20, 30), true)
 	logPipes := [][]Stage{
 		nil,
@@ -259,8 +262,10 @@ func generate(thorough bool, sel func(int) bool, count bool) *generator {
 	}
 	windows := []window{{0, 20}, {2, 12}, {5, 10}}
 	if thorough {
-		windows = []window{{0, 10}, {0, 12}, {0, 20}, {2, 10}, {2, 12}, {2, 20}, {5, 10}, {5, 12}, {5, 20}}
+		windows = []window{{0, 10}, {0, 20}, {2, 12}, {2, 20}, {5, 10}, {5, 12}}
 	}
+	// quick: the window {2,20} (unaligned from, `to` three buckets later) only with step = 2*range, where it matters
+	wideOnly2R := window{2, 20}
 	var l1queries []*Query
 	for _, fn := range logFns {
 		for _, pipe := range logPipes {
@@ -288,6 +293,13 @@ func generate(thorough bool, sel func(int) bool, count bool) *generator {
 					}
 				}
 			}
+			if !thorough {
+				qq := *q
+				qq.RangeS = r
+				for _, d := range timeFam.dbs[r] {
+					g.add("L1", &qq, d, wideOnly2R.params(r, int64(r)*2000), false)
+				}
+			}
 		}
 	}
 	// ranges 20 s (not a multiple of the 15 s pre-aggregation) and 30 s for the two shortcut functions and bytes_rate
@@ -307,7 +319,7 @@ func generate(thorough bool, sel func(int) bool, count bool) *generator {
 	// ---------------- L2 ----------------
 	l2ranges := []int{5, 15}
 	if thorough {
-		l2ranges = ranges
+		l2ranges = []int{5, 15, 60}
 	}
 	serFam := buildFamily("series", seriesPool, maxEntries, ranges, true)
 	aggs := []string{"sum", "min", "max", "avg", "count"}
@@ -337,10 +349,13 @@ func generate(thorough bool, sel func(int) bool, count bool) *generator {
 		for _, in := range inners {
 			for _, agg := range aggs {
 				for _, gr := range groupings {
-					for _, w := range w2 {
+					for wi, w := range w2 {
 						qq := *in
 						qq.RangeS, qq.Agg, qq.AGroup = r, agg, gr
 						for _, st := range stepsFor(r) {
+							if wi > 0 && st != int64(r)*1000 {
+								continue
+							}
 							for _, d := range serFam.dbs[r] {
 								g.add("L2", &qq, d, w.params(r, st), false)
 							}
